@@ -162,55 +162,14 @@ Definition contribs_fail (model_keys : list str) (spec view : list contrib) : li
 Definition elem_contribs (cs : list contrib) : list node :=
   fold_right (fun c acc => match c with CElem _ n => n :: acc | _ => acc end) [] cs.
 
-Fixpoint check_site (fuel : nat) (el : node) (out : node) {struct fuel} : list str :=
-  match fuel with
-  | O => tag "fuel"
-  | S f =>
-      let '(call, dirs_view) := split_dirs out in
-      match vnode_parts call with
-      | None => tag "C01:not-a-vnode-call"
-      | Some v =>
-          match el with
-          | JsxE name attrs _ _ children _ =>
-              let is_comp := spec_is_component E name in
-              let '(cs, dirs, vslots) := spec_attrs E is_comp name attrs in
-              let cv := view_contribs (vp_props v) in
-              (if atype_eqb (spec_type E name) (view_type (vp_tag v)) then [] else tag "C01:type")
-              ++ contribs_fail
-                   (let all := splice_vmodels attrs false in
-                    flat_map (fun a => if is_vmodel_attr a
-                                       then map contrib_key (fst (fst (attr_spec E is_comp name all a)))
-                                       else []) all)
-                   cs cv
-              ++ (* element-valued attributes, pairwise *)
-                 (fix pair (a b : list node) : list str :=
-                    match a, b with
-                    | x :: a', y :: b' => check_site f x y ++ pair a' b'
-                    | [], [] => []
-                    | _, _ => tag "C01:props"
-                    end) (elem_contribs cs) (elem_contribs cv)
-              ++ (if dirs_match dirs dirs_view then []
-                  else if existsb is_model_dir dirs then tag "C05:directive" else tag "C04:dirs")
-              ++ check_children f is_comp vslots children (vp_children v)
-          | JsxF children =>
-              (if atype_eqb TFragment (view_type (vp_tag v)) then [] else tag "C01:type")
-              ++ (match vp_props v with Null => [] | _ => tag "C01:props" end)
-              ++ (match dirs_view with [] => [] | _ => tag "C04:dirs" end)
-              ++ check_children f false None children (vp_children v)
-          | _ => tag "not-an-element"
-          end
-      end
-  end
-with check_children (fuel : nat) (is_comp : bool) (vslots : option node) (children : list node) (c : node)
-     {struct fuel} : list str :=
-  match fuel with
-  | O => tag "fuel"
-  | S f =>
+(* what the children argument must be, given the check [chk] of nested elements *)
+Definition check_children_with (chk : node -> node -> list str) (is_comp : bool) (vslots : option node)
+           (children : list node) (c : node) : list str :=
       let live := live_children children in
       let extra := vslots_entries vslots in
       let opt := o_optimize OP in
       let fail := if is_comp then tag "C03:slots" else tag "C02:children" in
-      let items_ok := fun (vs : list vitem) => check_items_with (check_site f) fail children vs in
+      let items_ok := fun (vs : list vitem) => check_items_with (chk) fail children vs in
       (* a lazily evaluated default slot returning the children in order, v-slots beside it *)
       let default_slot := fun (props : list node) =>
         match strip_hint opt props with
@@ -287,7 +246,46 @@ with check_children (fuel : nat) (is_comp : bool) (vslots : option node) (childr
               | _ => match c with Obj props => default_slot props | _ => fail end
               end
         | _ => match c with Obj props => default_slot props | _ => fail end
-        end
+        end.
+
+Fixpoint check_site (fuel : nat) (el : node) (out : node) {struct fuel} : list str :=
+  match fuel with
+  | O => tag "fuel"
+  | S f =>
+      let '(call, dirs_view) := split_dirs out in
+      match vnode_parts call with
+      | None => tag "C01:not-a-vnode-call"
+      | Some v =>
+          match el with
+          | JsxE name attrs _ _ children _ =>
+              let is_comp := spec_is_component E name in
+              let '(cs, dirs, vslots) := spec_attrs E is_comp name attrs in
+              let cv := view_contribs (vp_props v) in
+              (if atype_eqb (spec_type E name) (view_type (vp_tag v)) then [] else tag "C01:type")
+              ++ contribs_fail
+                   (let all := splice_vmodels attrs false in
+                    flat_map (fun a => if is_vmodel_attr a
+                                       then map contrib_key (fst (fst (attr_spec E is_comp name all a)))
+                                       else []) all)
+                   cs cv
+              ++ (* element-valued attributes, pairwise *)
+                 (fix pair (a b : list node) : list str :=
+                    match a, b with
+                    | x :: a', y :: b' => check_site f x y ++ pair a' b'
+                    | [], [] => []
+                    | _, _ => tag "C01:props"
+                    end) (elem_contribs cs) (elem_contribs cv)
+              ++ (if dirs_match dirs dirs_view then []
+                  else if existsb is_model_dir dirs then tag "C05:directive" else tag "C04:dirs")
+              ++ check_children_with (check_site f) is_comp vslots children (vp_children v)
+          | JsxF children =>
+              (if atype_eqb TFragment (view_type (vp_tag v)) then [] else tag "C01:type")
+              ++ (match vp_props v with Null => [] | _ => tag "C01:props" end)
+              ++ (match dirs_view with [] => [] | _ => tag "C04:dirs" end)
+              ++ check_children_with (check_site f) false None children (vp_children v)
+          | _ => tag "not-an-element"
+          end
+      end
   end.
 
 End Check.
